@@ -250,6 +250,14 @@ impl PoolMap {
         let mut removed_ids = vec![id.to_owned()];
         removed_ids.extend(self.calc_descendants(id));
 
+        // the ancestors that stay in the pool lose every removed entry as a descendant;
+        // this must happen while the links still exist, remove_entry below no longer sees them
+        for id in &removed_ids {
+            if let Some(entry) = self.get(id).cloned() {
+                self.update_ancestors_index_key(&entry, EntryOp::Remove);
+            }
+        }
+
         // update links state for remove, so that we won't update_descendants_index_key in remove_entry
         for id in &removed_ids {
             self.remove_entry_links(id);
